@@ -21,7 +21,12 @@ const VOCAB: &[&str] = &[
     "frobnix", "Zorblax", "qwertzu", "naïvetéx", "blorf's", "snarfle", "ünïcödé", "xkcdish",
     "glimmerfex", "Quuxly", "vexillog", "wibblet", "tharnok", "mooblex", "zyzzyvaq", "plonkish",
     "crèmex", "drelb’s",
+    // lower-case forms of capitalised curated entries: flagged until the user adds them
+    "github", "linux", "monday", "iphone",
 ];
+
+/// user dictionary files as a user (or another tool) may have left them on disk
+const PRESEEDS: &[&str] = &["", "", "quuxify\nwibblefrotz\n", "quuxify\nwibblefrotz", "quuxify", "quuxify\n\nwibblefrotz\n"];
 
 #[derive(Debug, Clone, Serialize, Deserialize, PartialEq, Eq, Hash)]
 pub enum Op {
@@ -38,6 +43,9 @@ pub struct DictCase {
     /// per document: language id and the vocabulary indices it mentions
     pub docs: Vec<(String, Vec<u8>)>,
     pub ops: Vec<Op>,
+    /// index into PRESEEDS: content of the user dictionary file before the session
+    #[serde(default)]
+    pub preseed: u8,
 }
 
 fn vocab(i: u8) -> &'static str {
@@ -167,8 +175,15 @@ fn history(c: &DictCase, ctx: &mut CaseCtx, _allow_case_variants: bool) -> Resul
         diags: vec![vec![]; n],
         version: 1,
     };
+    let pre = PRESEEDS[c.preseed as usize % PRESEEDS.len()];
+    if !pre.is_empty() {
+        let _ = std::fs::create_dir_all(s.sb.user_dict().parent().unwrap());
+        std::fs::write(s.sb.user_dict(), pre).map_err(|e| LspError::Protocol(e.to_string()))?;
+    }
     s.start()?;
-    let mut user: BTreeSet<String> = BTreeSet::new();
+    // a dictionary file on disk counts as words added so far (one per non-empty line)
+    let mut user: BTreeSet<String> = pre.lines().filter(|l| !l.is_empty()).map(|l| l.to_string()).collect();
+    ctx.class_if(!pre.is_empty() && !pre.ends_with('\n'), "preseeded_file_without_trailing_newline");
     let mut file: BTreeMap<usize, BTreeSet<String>> = BTreeMap::new();
     let mut adds = 0;
     let mut restarts = 0;
@@ -236,7 +251,8 @@ fn history(c: &DictCase, ctx: &mut CaseCtx, _allow_case_variants: bool) -> Resul
                 }
                 // saved file reloads to exactly the words added so far
                 if to_user {
-                    let got = read_lines(&s.sb.user_dict());
+                    let mut got = read_lines(&s.sb.user_dict());
+                    got.remove("");
                     if got != user {
                         fail!("step {step}: user dictionary file holds {:?}, words added so far {:?}", got, user);
                     }
@@ -318,7 +334,8 @@ fn history(c: &DictCase, ctx: &mut CaseCtx, _allow_case_variants: bool) -> Resul
                         fail!("step {step} (after restart): {e}");
                     }
                 }
-                let got = read_lines(&s.sb.user_dict());
+                let mut got = read_lines(&s.sb.user_dict());
+                got.remove("");
                 if got != user {
                     fail!("step {step}: after restart the user dictionary file holds {:?}, added {:?}", got, user);
                 }
@@ -340,6 +357,15 @@ fn history(c: &DictCase, ctx: &mut CaseCtx, _allow_case_variants: bool) -> Resul
 }
 
 fn history_strategy(max_ops: usize) -> BoxedStrategy<DictCase> {
+    (history_strategy_inner(max_ops), 0u8..PRESEEDS.len() as u8)
+        .prop_map(|(mut c, p)| {
+            c.preseed = p;
+            c
+        })
+        .boxed()
+}
+
+fn history_strategy_inner(max_ops: usize) -> BoxedStrategy<DictCase> {
     let lang = prop_oneof![3 => Just("plaintext".to_string()), 3 => Just("markdown".to_string()), 1 => Just("rust".to_string()), 1 => Just("python".to_string())];
     let words = || proptest::collection::vec(0u8..VOCAB.len() as u8, 2..6);
     (
@@ -354,7 +380,7 @@ fn history_strategy(max_ops: usize) -> BoxedStrategy<DictCase> {
             1..max_ops,
         ),
     )
-        .prop_map(|(docs, ops)| DictCase { docs, ops })
+        .prop_map(|(docs, ops)| DictCase { docs, ops, preseed: 0 })
         .boxed()
 }
 
@@ -712,6 +738,7 @@ pub fn run(run: &mut Run) {
     run.require_class("lsp_histories", "restarted", (n / 8) as u64);
     run.require_class("lsp_histories", "file_dictionary_used", (n / 4) as u64);
     run.require_class("lsp_histories", "non_ascii_word_added", (n / 10) as u64);
+    run.require_class("lsp_histories", "preseeded_file_without_trailing_newline", (n / 10) as u64);
 
     // crash enumeration: small and >8 KiB dictionaries, user and file dictionaries
     let mut cases = vec![
